@@ -135,7 +135,11 @@ def _c02(tier, rng):
 
 
 def _c03(tier, rng):
-    if tier == "quick":
+    if tier == "escalated":     # the source text of the formulas changed and is no longer provably the model: wider search
+        yield ("complete effective-metric domain with all four requirement codes", S.env3_effective(["X", "H", "M", "L"]), True)
+        yield ("all (Modified value x base value) pairs in random contexts", S.env3_fallback_pairs(rng, 100), False)
+        yield ("random full environmental vectors", S.env3_random(rng, 600000), False)
+    elif tier == "quick":
         yield ("complete effective-metric domain (2x2x48x729x... CR/IR/AR in {X,H,L}), temporal X", S.env3_effective(), True)
         yield ("all (Modified value x base value) pairs in random contexts", S.env3_fallback_pairs(rng, 20), False)
         yield ("random full environmental vectors", S.env3_random(rng, 100000), False)
@@ -154,15 +158,15 @@ def _c04(tier, rng):
 
 def _c05(tier, rng):
     yield ("all 729 x 64 (base, CR, IR, AR) tuples, neutral CDP/TD, no temporal group", S.env2_adjusted_all(), True)
-    yield ("every CDP x TD pair on random carriers", S.env2_cdp_td_grid(rng, 60 if tier == "quick" else 2000), False)
-    yield ("random full vectors incl. absent groups", S.env2_random(rng, 100000 if tier == "quick" else 3000000), False)
+    yield ("every CDP x TD pair on random carriers", S.env2_cdp_td_grid(rng, {"quick": 60, "escalated": 600}.get(tier, 2000)), False)
+    yield ("random full vectors incl. absent groups", S.env2_random(rng, {"quick": 100000, "escalated": 1000000}.get(tier, 3000000)), False)
 
 
 def _c06(tier, rng):
     yield ("v3 base: all vectors x 3 decoders", S.base3_all(), True)
     yield ("v2 base x temporal: all vectors", S.base2_all(levels=(1,)) + S.temporal2_all(), True)
     yield ("v2 adjusted-base tuples (negative-equation exception)", S.env2_adjusted_all(), True)
-    n = 60000 if tier == "quick" else 1500000
+    n = {"quick": 60000, "escalated": 400000}.get(tier, 1500000)
     yield ("v3 random environmental vectors", S.env3_random(rng, n), False)
     yield ("v3 omitted/explicit X temporal vectors", S.temporal3_omitted(rng, n // 2), False)
     yield ("v2 random full vectors", S.env2_random(rng, n), False)
@@ -411,6 +415,7 @@ def _c09(tier, rng):
            S.omitted_vs_x_all_base3(rng), True)
     yield ("v2 canonical vectors of every group pattern, all decoders", S.accepted2_ops(rng, n), False)
     yield ("all v3 base vectors, permuted", S.base3_permuted(rng, kind="D3"), False)
+    yield ("decoder objects used twice, first use accepted or rejected before anything was recorded", S.reuse_ops_safe(rng, n // 6), False)
 
 
 def _c10(tier, rng):
@@ -419,6 +424,7 @@ def _c10(tier, rng):
     yield ("v2 canonical vectors (encode = input, String, re-decode)", S.accepted2_ops(rng, n), False)
     yield ("v3 edit neighbourhood (accepted members)", S.parser3_ops(rng, 6 if tier == "quick" else 60, False, nrandom=200), False)
     yield ("every v3 base vector at the temporal and environmental decoders (nothing optional written)", S.base3_all(kind="D3", levels=(1, 2)), True)
+    yield ("decoder objects used twice (safe first use)", S.reuse_ops_safe(rng, n // 6), False)
 
 
 _reg(DecodeProp(
@@ -587,6 +593,7 @@ def _c14(tier, rng):
     yield ("v2 accepted temporal and environmental vectors: views", ops2, False)
     yield ("all v3 base vectors through the T and E decoders", S.base3_all(kind="D3", levels=(1, 2)), True)
     yield ("all v2 base vectors through the T and E decoders", S.base2_all(kind="D2", levels=(1, 2)), True)
+    yield ("decoder objects used twice (safe first use): views of what the second decode left", S.reuse_ops_safe(rng, n // 6), False)
 
 
 _reg(DecodeProp(
@@ -699,6 +706,88 @@ def _names_from_behaviour(dst):
     new = "\n".join(lines) + "\n"
     if not os.path.exists(dst) or open(dst).read() != new:
         open(dst, "w").write(new)
+
+
+# which translated functions a score property is about (the tie by translation is judged per property on these)
+FORMULA_DEFS = {
+    "C01": ["F3.roundUp", "F3.Base_Score"],
+    "C02": ["F3.roundUp", "F3.Base_Score", "F3.Temporal_Score"],
+    "C03": ["F3.roundUp", "F3.Environmental_Score"],
+    "C04": ["F2.roundTo1Decimal", "F2.roundTo2Decimal", "F2.Base_Score", "F2.Base_score", "F2.Temporal_Score", "F2.Temporal_score"],
+    "C05": ["F2.roundTo1Decimal", "F2.roundTo2Decimal", "F2.Base_Score", "F2.Base_score", "F2.Temporal_score", "F2.Environmental_Score"],
+    "C06": ["F3.severity", "F2.severity", "F3.roundUp", "F2.roundTo1Decimal"],
+    "C13": ["F3.roundUp", "F3.Temporal_Score", "F3.Environmental_Score", "F2.Temporal_Score", "F2.Temporal_score", "F2.Environmental_Score"],
+}
+# properties whose quantified domain the correspondence cannot enumerate: there the translation is what makes the tie
+# complete, and losing it without an explanation is reported as the brief prescribes (no-failing-input-found)
+FORMULA_TIE_REQUIRED = ("C03", "C05")
+SRC_MODULE = "CvssVerif.Props.Src"
+SRC_THEOREMS = ["v3_source_is_model", "v2_source_is_model", "base3_source", "temporal3_source", "env3_source",
+                "severity3_source", "severity2_source"]
+
+
+def _split_defs(txt):
+    """generated Formulas.lean -> {"F3.roundUp": text, ...}"""
+    res, ns, cur, buf = {}, None, None, []
+    for line in txt.splitlines():
+        if line.startswith("namespace CvssVerif.Gen."):
+            ns = line.split(".")[-1]
+        if line.startswith("def ") or line.startswith("end "):
+            if cur:
+                res[cur] = "\n".join(buf).strip()
+            cur, buf = None, []
+            if line.startswith("def "):
+                cur = "%s.%s" % (ns, line.split()[1])
+        if cur:
+            buf.append(line)
+    return res
+
+
+def run_formulas(prop):
+    """regenerate lean/CvssVerif/Generated/Formulas.lean from the text of the score and severity functions of /repo
+    (go/formulas) and re-check `Props/Src.lean` (source text = model, for every object).  Returns a dict:
+      status   'proved'          the translator understood the source and every equality checks: the theorems of this
+                                 property are theorems about the source text;
+               'not-understood'  the source is outside the translator's subset (a harmless restructuring is enough):
+                                 the reference translation is put back, the tie of this run is the correspondence alone;
+               'lost'            the translator understood the source but the source is no longer provably the model;
+      changed  translated functions whose text differs from the reference translation of the pinned tree;
+      relevant those of them this property is about."""
+    src = os.path.join(core.VERIF, "go", "formulas")
+    out = os.path.join(core.BUILD, "formulas")
+    dst = os.path.join(core.LEAN, "CvssVerif", "Generated", "Formulas.lean")
+    ref = open(os.path.join(src, "reference.lean")).read()
+    res = {"status": "not-understood", "note": "", "changed": [], "relevant": [], "translator": "go/formulas (go/parser; symbolic execution of the function bodies)"}
+
+    def put(txt):
+        if not os.path.exists(dst) or open(dst).read() != txt:
+            open(dst, "w").write(txt)
+    try:
+        core.sh(["go", "build", "-o", out, "."], cwd=src, env=core.GOENV, timeout=300)
+        if os.path.exists(dst + ".new"):
+            os.remove(dst + ".new")
+        p = core.sh([out, core.REPO, dst + ".new"], timeout=120, check=False)
+        txt = p.stdout.strip()
+        res["note"] = txt[-1500:]
+        if p.returncode == 0 and txt.endswith("problems=0") and os.path.exists(dst + ".new"):
+            new = open(dst + ".new").read()
+            os.remove(dst + ".new")
+            put(new)
+            a, b = _split_defs(ref), _split_defs(new)
+            res["changed"] = sorted(k for k in set(a) | set(b) if a.get(k) != b.get(k))
+            res["relevant"] = [k for k in res["changed"] if k in FORMULA_DEFS.get(prop, [])]
+            ok, log = core.build_lean([SRC_MODULE])
+            if ok:
+                res["status"] = "proved"
+            else:
+                res["status"] = "lost"
+                errs = [l for l in log.splitlines() if "error" in l.lower() and "warning" not in l.lower()]
+                res["note"] = (" | ".join(errs))[:1500]
+            return res
+    except core.BuildError as e:
+        res["note"] = "go/formulas failed: " + str(e)[-600:]
+    put(ref)
+    return res
 
 
 def run_effects():
